@@ -1044,7 +1044,9 @@ class Rewriter:
                 fdata = fp.read()
 
             # Generate line offsets numbers
-            m_lines = fdata.splitlines(True)
+            # Only '\n' ends a line for the lexer; str.splitlines() also splits at
+            # form feeds, U+2028 and friends, which would shift every later offset.
+            m_lines = [line + '\n' for line in fdata.split('\n')]
             offset = 0
             line_offsets = []
             for j in m_lines:
